@@ -123,7 +123,7 @@ theorem eSupp (i : Nat) (hi : i ≤ 8) : Supp (eW i) [0, 1, 2] [0] [1] := by
   rcases this with h | h | h | h | h | h | h | h | h <;> subst h <;>
     exact ⟨by decide, by decide, by decide, by decide⟩
 
-theorem eReach : WReach eW0 (eW 8) := by
+theorem eReach7 : WReach eW0 (eW 7) := by
   have r0 : WReach eW0 (eW 0) := .init
   have r1 : WReach eW0 (eW 1) :=
     .reconf _ _ _ r0 (safeB_sound (nodes := [0, 1, 2]) (rkeys := [0]) (fkeys := [1]) (eSupp 0 (by omega)) (by decide))
@@ -133,9 +133,10 @@ theorem eReach : WReach eW0 (eW 8) := by
   have r5 : WReach eW0 (eW 5) :=
     .reconf _ _ _ r4 (safeB_sound (nodes := [0, 1, 2]) (rkeys := [0]) (fkeys := [1]) (eSupp 4 (by omega)) (by decide))
   have r6 : WReach eW0 (eW 6) := .sync _ r5
-  have r7 : WReach eW0 (eW 7) :=
-    .wrec _ _ r6 (quietRB_sound (nodes := [0, 1, 2]) (eSupp 6 (by omega)) 0 (by decide))
-  exact .reconf _ _ _ r7 (safeB_sound (nodes := [0, 1, 2]) (rkeys := [0]) (fkeys := [1]) (eSupp 7 (by omega)) (by decide))
+  exact .wrec _ _ r6 (quietRB_sound (nodes := [0, 1, 2]) (eSupp 6 (by omega)) 0 (by decide))
+
+theorem eReach : WReach eW0 (eW 8) :=
+  .reconf _ _ _ eReach7 (safeB_sound (nodes := [0, 1, 2]) (rkeys := [0]) (fkeys := [1]) (eSupp 7 (by omega)) (by decide))
 
 theorem eCovers : Covers (eW 8).cfg (eW 8).ro (eW 8).fo [0, 1, 2] [0] [1] :=
   ⟨by decide, by decide, by decide, by decide⟩
